@@ -369,7 +369,7 @@ func c02RunToposort(c *Cfg, root *Rng) {
 			}
 		}
 		c.Count(fmt.Sprintf("toposort/ties=%v/cyclic=%v", hasTie, strings.Contains(comps, ",")))
-		line := fmt.Sprintf("topo 0 %s %s", ls, es)
+		line := fmt.Sprintf("topo 1 %s %s", ls, es)
 		c.Case(line, k > 2 && len(edges) > 0)
 		c.Op("I", fmt.Sprintf("scc %s %s", ls, es), "ok "+c02Dash(comps))
 		// repeated builds: Build() ranges over a Go map, so every rebuild is another presentation
@@ -378,12 +378,9 @@ func c02RunToposort(c *Cfg, root *Rng) {
 			res2, _ := c02TopoImpl(rt, labels, edges)
 			if res2 != res {
 				same = false
-				// only graphs that really contain two labels with one RawString belong to the known
-				// class; instability of a tie-free graph is a different defect
+				// since 2c855f1 compareNodeByName breaks a RawString tie by the label type: every
+				// graph, with or without such ties, must sort the same way on every rebuild
 				class := "toposort-order-unstable"
-				if hasTie {
-					class = "toposort-rawstring-tie"
-				}
 				c.Direct(false, class, "toposort.Graph.Sort gives different orders for the same nodes and edges", map[string]any{"labels": ls, "edges": es, "order1": res, "order2": res2, "labels_with_equal_RawString": hasTie})
 				break
 			}
@@ -391,12 +388,11 @@ func c02RunToposort(c *Cfg, root *Rng) {
 		if same {
 			c.Direct(true, "", "", nil)
 		}
-		if !hasTie {
-			c.Op("O", line, res)
-		}
+		c.Op("O", line, res)
 	}
-	// witness of C02_toposort_perm_false on the real implementation: "#a" (string label) and
-	// #a (definition) with no edge, 64 rebuilds
+	// the witness of C02_toposort_perm_false_old_comparison on the real implementation: "#a"
+	// (string label) and #a (definition) with no edge, 64 rebuilds. Before 2c855f1 both orders
+	// came out; a relapse is a VIOLATION (class not listed).
 	labels := []c02Label{{"", adt.MakeStringLabel(rt, "#a")}, {"", adt.MakeIdentLabel(rt, "#a", "")}}
 	for i := range labels {
 		labels[i].text = fmt.Sprintf("n%d.%s", int(labels[i].f.Typ()), H(labels[i].f.RawString(rt)))
@@ -411,7 +407,10 @@ func c02RunToposort(c *Cfg, root *Rng) {
 		orders = append(orders, k)
 	}
 	sort.Strings(orders)
-	c.Direct(len(seen) == 1, "toposort-rawstring-tie", "string label \"#a\" and definition #a, no edge: Graph.Sort returns both orders across rebuilds (map iteration order of Build)", map[string]any{"orders": orders})
+	c.Direct(len(seen) == 1, "toposort-order-unstable", "string label \"#a\" and definition #a, no edge: Graph.Sort returns both orders across rebuilds (map iteration order of Build)", map[string]any{"orders": orders})
+	for _, o := range orders {
+		c.Op("O", fmt.Sprintf("topo 1 %s,%s -", labels[0].text, labels[1].text), o)
+	}
 }
 
 func c02Dash(s string) string {
